@@ -37,7 +37,7 @@ func c07Stress(c *vf.Ctx) {
 	if !c.Active(sub) {
 		return
 	}
-	n := c.N(40, 1200)
+	n := c.N(100, 1200)
 	pool := pcPeerPool()
 	for i := 0; i < n; i++ {
 		if !c.Mine(sub, i) {
@@ -296,7 +296,7 @@ func c07NoWait(c *vf.Ctx) {
 	if !c.Active(sub) {
 		return
 	}
-	n := c.N(12, 300)
+	n := c.N(30, 300)
 	pool := pcPeerPool()
 	for i := 0; i < n; i++ {
 		if !c.Mine(sub, i) {
